@@ -166,6 +166,10 @@ def main(tier: str) -> int:
         def thr_of(kind, _cfg=cfg, _pdp=pdp, _names=names):
             # the floor as CONFIGURED (not as the instance reports it)
             return 0.2 / len(_names[kind]) if _pdp else float(_cfg.get(kind + "_threshold_proba", 0.05))
+        # ---- the probabilities are updated (and the operators re-drawn) once in EVERY generation, the last one included
+        if len(log["adapt"]) != gens:
+            chk.fail("the operator probabilities are not updated once in every generation",
+                     {"run": d, "generations": gens, "updates": len(log["adapt"])}, {"optimizer": cn, "clause": "every_generation"})
         # ---- distributions of every generation (as recorded) are distributions over the configured names
         for g in range(gens):
             for kind, key in zip(KINDS, ("s_proba", "c_proba", "m_proba")):
@@ -186,6 +190,11 @@ def main(tier: str) -> int:
                 pb, ob = a["before"][kind]
                 pa, oa = a["after"][kind]
                 ks = names[kind]
+                if sorted(pa.keys()) != ks or sorted(pb.keys()) != ks or any(str(o) not in ks for o in ob):
+                    chk.fail("operator probabilities are not a positive distribution over the configured names above the floor",
+                             {"run": d, "generation": g, "kind": kind, "configured": ks, "names_after_the_update": sorted(pa.keys())},
+                             {"optimizer": cn, "clause": "names_dropped"})
+                    break
                 opsidx = [ks.index(str(o)) for o in ob]
                 thr = thr_of(kind)
                 # S4: the documented update rule, recomputed independently
@@ -264,6 +273,29 @@ def main(tier: str) -> int:
                 chk.fail("the operator assignment never changes over the generations (updated probabilities are never used)",
                          {"run": d, "generations": gens}, {"optimizer": cn, "clause": "redraw"})
 
+    # ---- a second fit() of the same object adapts in every generation as well (nothing left over from the first run switches it off)
+    for cn in ("SelfCGA", "PDPGA", "SelfCGP", "PDPGP"):
+        cfg2 = dict(pop_size=8 if cn.endswith("GA") else 7, iters=4, objective="onemax", elitism=True, seed=chk.seed * 100 + 97, keep_history=True)
+        rec2 = T.Recorder(cn, cfg2)
+        opt2, _ = T.build(cn, cfg2, rec2)
+        calls2 = {"n": 0, "changed": 0}
+        oa2 = opt2._adapt
+
+        def adapt2(_oa=oa2, _o=opt2, _c=calls2):
+            before = (dict(_o._selection_proba), dict(_o._crossover_proba), dict(_o._mutation_proba))
+            _oa()
+            _c["n"] += 1
+            _c["changed"] += before != (dict(_o._selection_proba), dict(_o._crossover_proba), dict(_o._mutation_proba))
+        opt2._adapt = adapt2
+        opt2.fit()
+        first = calls2["n"]
+        opt2.fit()
+        chk.count("second_fit")
+        chk.case(("second_fit", cn))
+        if first != 4 or calls2["n"] != 8:
+            chk.fail("the operator probabilities are not updated once in every generation",
+                     {"optimizer": cn, "generations_per_fit": 4, "updates_in_first_fit": first, "updates_in_second_fit": calls2["n"] - first},
+                     {"optimizer": cn, "clause": "every_generation_refit"})
     try:
         outs = C.lean_driver([json.dumps(o) for o in ops])
     except Exception as e:
